@@ -1237,7 +1237,9 @@ func (c *FnCtx) havocForLoop(st *State, ms *modSet) {
 		// calls inside the loop may have produced new heap versions for any heap already
 		// present in the state: havoc those too
 		for k := range st.heaps {
-			keys[k] = true
+			if !strings.HasPrefix(k, "G_") {
+				keys[k] = true
+			}
 		}
 		for k := range c.callHeapKeys {
 			keys[k] = true
@@ -1255,6 +1257,23 @@ func (c *FnCtx) havocForLoop(st *State, ms *modSet) {
 	na := c.fresh("alloc", "Int")
 	c.assume(st, sx(">=", na, oldAlloc))
 	st.alloc = na
+	// every reference held in a variable was allocated before now
+	for _, o := range objs {
+		c.refsBelow(st, st.env[o], na)
+	}
+}
+
+func (c *FnCtx) refsBelow(st *State, v Val, bound string) {
+	switch v.K {
+	case KSlice:
+		c.assume(st, sx("<", v.ref(), bound))
+	case KPtr:
+		c.assume(st, sx("<", v.S, bound))
+	case KStruct, KArray, KTuple:
+		for _, f := range v.F {
+			c.refsBelow(st, f, bound)
+		}
+	}
 }
 
 func (c *FnCtx) loopSpec() (*LoopSpec, int) {
@@ -1304,6 +1323,42 @@ func (c *FnCtx) assumeInvariants(st *State, ls *LoopSpec) {
 	}
 }
 
+// ghostAssign defines a new version of a ghost function: G'(x) := e.
+func (c *FnCtx) ghostAssign(st *State, cl *Clause, iter *State) {
+	name := cl.Label
+	key := "G_" + name
+	heapSorts[key] = "Int"
+	param := "gx"
+	if len(cl.Props) > 0 && cl.Props[0] != "" {
+		param = cl.Props[0]
+	}
+	c.nfresh++
+	bv := fmt.Sprintf("%s?%d", param, c.nfresh)
+	sc := c.specScopeAt(st)
+	sc.iter = iter
+	sc.vars[param] = vInt(bv)
+	sc.bound = map[string]bool{param: true}
+	body := sc.intOf(cl.Expr)
+	nw := c.newHeapVersion(key)
+	c.declared[nw] = true
+	c.emit(fmt.Sprintf("(define-fun %s ((%s Int)) Int %s)", nw, bv, body))
+	st.heaps[key] = nw
+}
+
+func (c *FnCtx) ghostLoopHavoc(st *State, ls *LoopSpec) {
+	if ls == nil {
+		return
+	}
+	seen := map[string]bool{}
+	for _, g := range ls.GhostUpd {
+		if !seen[g.Label] {
+			seen[g.Label] = true
+			heapSorts["G_"+g.Label] = "Int"
+			c.havocHeap(st, "G_"+g.Label)
+		}
+	}
+}
+
 func (c *FnCtx) execFor(st *State, x *ast.ForStmt) *State {
 	if x.Init != nil {
 		st = c.exec(st, x.Init)
@@ -1312,10 +1367,16 @@ func (c *FnCtx) execFor(st *State, x *ast.ForStmt) *State {
 		}
 	}
 	ls, ord := c.loopSpec()
+	if ls != nil {
+		for _, gi := range ls.GhostInit {
+			c.ghostAssign(st, gi, nil)
+		}
+	}
 	c.checkInvariants(st, ls, ord, "entry")
 	ms := c.modified(x.Body, x.Post, x.Cond)
 	head := st.clone()
 	c.havocForLoop(head, ms)
+	c.ghostLoopHavoc(head, ls)
 	c.assumeInvariants(head, ls)
 	cond := "true"
 	if x.Cond != nil {
@@ -1341,6 +1402,11 @@ func (c *FnCtx) execFor(st *State, x *ast.ForStmt) *State {
 		end = c.exec(end, x.Post)
 	}
 	if end != nil {
+		if ls != nil {
+			for _, gu := range ls.GhostUpd {
+				c.ghostAssign(end, gu, c.iterStates[len(c.iterStates)-1])
+			}
+		}
 		c.checkInvariants(end, ls, ord, "preserve")
 		if dec0 != "" {
 			d1 := c.specScopeAt(end).intOf(ls.Decreases.Expr)
@@ -1391,6 +1457,11 @@ func (c *FnCtx) execRange(st *State, x *ast.RangeStmt) *State {
 		keyObj = types.NewVar(x.Pos(), c.pkg.Types, fmt.Sprintf("idx%d", ord), types.Typ[types.Int])
 	}
 	st.env[keyObj] = Val{K: KInt, S: "0", T: types.Typ[types.Int]}
+	if ls != nil {
+		for _, gi := range ls.GhostInit {
+			c.ghostAssign(st, gi, nil)
+		}
+	}
 	c.checkInvariants(st, ls, ord, "entry")
 	ms := c.modified(x.Body)
 	if ms.vars[keyObj] && x.Key != nil {
@@ -1400,6 +1471,7 @@ func (c *FnCtx) execRange(st *State, x *ast.RangeStmt) *State {
 	ms.vars[keyObj] = true
 	head := st.clone()
 	c.havocForLoop(head, ms)
+	c.ghostLoopHavoc(head, ls)
 	idx := head.env[keyObj].S
 	c.assume(head, sAnd(sx("<=", "0", idx), sx("<=", idx, n)))
 	c.assumeInvariants(head, ls)
@@ -1465,6 +1537,11 @@ func (c *FnCtx) execRange(st *State, x *ast.RangeStmt) *State {
 	end = c.merge(append([]*State{end}, conts...))
 	if end != nil {
 		end.env[keyObj] = Val{K: KInt, S: c.define("next", "Int", sx("+", idx, "1")), T: types.Typ[types.Int]}
+		if ls != nil {
+			for _, gu := range ls.GhostUpd {
+				c.ghostAssign(end, gu, c.iterStates[len(c.iterStates)-1])
+			}
+		}
 		c.checkInvariants(end, ls, ord, "preserve")
 		if dec0 != "" {
 			d1 := c.specScopeAt(end).intOf(ls.Decreases.Expr)
